@@ -30,6 +30,7 @@ pub enum TopicRequest {
 
     RemoveSubscription {
         name: SubscriptionName,
+        internal_id: u32,
         responder: oneshot::Sender<Result<(), RemoveSubscriptionError>>,
     },
 
@@ -113,8 +114,12 @@ impl TopicActor {
                 let _ = responder.send(result);
             }
 
-            TopicRequest::RemoveSubscription { name, responder } => {
-                let result = self.remove_subscription(name);
+            TopicRequest::RemoveSubscription {
+                name,
+                internal_id,
+                responder,
+            } => {
+                let result = self.remove_subscription(name, internal_id);
                 let _ = responder.send(result);
             }
 
@@ -231,9 +236,16 @@ impl TopicActor {
     fn remove_subscription(
         &mut self,
         name: SubscriptionName,
+        internal_id: u32,
     ) -> Result<(), RemoveSubscriptionError> {
         // Remove the subscription. This is called from the `Subscription` itself.
-        self.subscriptions.remove(&name);
+        // A stale handle must not detach a newer subscription that has been
+        // attached under the same name in the meantime.
+        if let Entry::Occupied(entry) = self.subscriptions.entry(name) {
+            if entry.get().internal_id == internal_id {
+                entry.remove();
+            }
+        }
         Ok(())
     }
 
